@@ -224,7 +224,7 @@ def skel_strategy(syn_name):
         lambda sk: {"kind": "skel", "sk": [s for s in sk if s[0] in ("text", "comment", "raw")], "syn": syn_name})
 
 
-SHARD_SYN = ["default"] * 7 + ["blockbr", "parens", "latex"] + ["php", "erb", "brackets", "three", "ops", "default"]
+SHARD_SYN = ["default"] * 5 + ["prefixvar", "dollar"] + ["blockbr", "parens", "latex"] + ["php", "erb", "brackets", "three", "ops", "default"]
 
 
 def run_shard(spec, ctx):
